@@ -92,6 +92,8 @@ func RunLive(o LiveOpts, al *Alarms) (*Net, LiveResult, error) {
 	}
 	p2pcfg := configs.DefaultP2PConfig()
 	p2pcfg.FlushThrottleTimeout = 5 * time.Millisecond
+	p2pcfg.HandshakeTimeout = 5 * time.Minute // the machine may be heavily loaded and the binary is race-instrumented
+	p2pcfg.DialTimeout = 5 * time.Minute
 	if o.Fuzz {
 		p2pcfg.TestFuzz = true
 		fc := configs.DefaultFuzzConnConfig()
